@@ -110,16 +110,20 @@ def check_rotation(inp):
     return f'inverse returns shape {y.shape} for an input of shape {x.shape}'
   if float(jnp.abs(y - x).max()) > 1e-3 * max(1.0, float(jnp.abs(x).max())):
     return f'shape {dims}: inverse(rotation(x)) differs from x by {float(jnp.abs(y - x).max()):.4g}'
-  # pytree versions
-  tree = {'a': x, 'b': (x * 2, jnp.ones((3,)))}
-  rt, st = wh.structured_rotation_pytree(tree, k1)
-  try:
-    back = wh.inverse_structured_rotation_pytree(rt, k1, st)
-  except Exception as e:  # pylint: disable=broad-except
-    return f'inverse_structured_rotation_pytree with a leaf of shape {dims}: {type(e).__name__}: {str(e)[:160]}'
-  for u, v in zip(jax.tree_util.tree_leaves(tree), jax.tree_util.tree_leaves(back)):
-    if u.shape != v.shape or float(jnp.abs(u - v).max()) > 1e-3 * max(1.0, float(jnp.abs(u).max())):
-      return f'pytree with a leaf of shape {dims}: a leaf is not restored'
+  # pytree versions: every tree structure - nested containers, a one-element list, a bare array (its own only leaf), no leaf
+  for name, tree in (('nested', {'a': x, 'b': (x * 2, jnp.ones((3,)))}), ('one-element list', [x + 1]),
+                     ('bare array', x * 3 + 1), ('single-entry dict', {'w': x - 1}), ('empty', {})):
+    rt, st = wh.structured_rotation_pytree(tree, k1)
+    try:
+      back = wh.inverse_structured_rotation_pytree(rt, k1, st)
+    except Exception as e:  # pylint: disable=broad-except
+      return f'inverse_structured_rotation_pytree ({name}) with a leaf of shape {dims}: {type(e).__name__}: {str(e)[:160]}'
+    if jax.tree_util.tree_structure(back) != jax.tree_util.tree_structure(tree):
+      return f'pytree ({name}): structure {jax.tree_util.tree_structure(back)} != {jax.tree_util.tree_structure(tree)}'
+    for u, v in zip(jax.tree_util.tree_leaves(tree), jax.tree_util.tree_leaves(back)):
+      if u.shape != v.shape or float(jnp.abs(u - v).max()) > 1e-3 * max(1.0, float(jnp.abs(u).max())):
+        return (f'pytree ({name}) with a leaf of shape {dims}: inverse_structured_rotation_pytree(structured_rotation_pytree(t, k), k) '
+                f'differs from t by {float(jnp.abs(u - v).max()):.4g}')
 
 
 def sweep_rotation(tier, seed):
